@@ -250,7 +250,100 @@ def rule_visits_all(run, rid, F, cfg, roots, why, allowed=(), minimum=1):
                 c = strip_generics(t["callee"])
                 if TRUNCATING_ADAPTERS.search(c) and not any(re.search(fr, g.name) and c.endswith("::" + ad) for fr, ad in allowed):
                     bad.append((c.split("::")[-1], g.loc(b)))
+        brk = [(g.name.rsplit("::", 1)[-1], hx) for g in fs for hx in loop_breaks(g)
+               if not any(re.search(fr, g.name) and ad == "break" for fr, ad in allowed)]
+        run.ob(rid, f"no-break:{r.split('::', 1)[-1]}", not brk,
+               f"no `for` loop of {r} is left by a `break` (an exit other than the end of the iteration or a `return`): "
+               f"{brk[:3]}. {why}", site=brk[0][1][1] if brk else fs[0].loc(0), config=cfg)
         run.ob(rid, f"visits-all:{r.split('::', 1)[-1]}", not bad,
                f"{r} (with its closures and local helpers, {len(fs)} bodies) calls no truncating / picking iterator "
                f"adapter: {bad[:3]}. {why}", site=bad[0][1] if bad else fs[0].loc(0), config=cfg)
     run.floor(rid, f"bodies searched for truncating adapters [{cfg}]", n, minimum)
+
+
+def natural_loops(fn):
+    """[(header, body)] for every back edge u -> h (h dominates u), bodies of loops sharing a header merged"""
+    preds = fn.preds()
+    loops = {}
+    for u in sorted(fn.normal_blocks()):
+        for h in fn.succ(u):
+            if fn.dominates(h, u):
+                body = loops.setdefault(h, {h})
+                stack = [u]
+                while stack:
+                    x = stack.pop()
+                    if x in body:
+                        continue
+                    body.add(x)
+                    stack.extend(preds.get(x, []))
+    return sorted(loops.items())
+
+
+def loop_of_iteration(fn, loops, next_block):
+    """the innermost loop whose body contains the block of an `Iterator::next` call"""
+    cands = [(h, body) for h, body in loops if next_block in body]
+    return min(cands, key=lambda hb: len(hb[1])) if cands else None
+
+
+def early_exits(fn, body, next_block):
+    """edges that leave a `for` loop other than through the exhaustion of its iterator: [(from, to)].
+    The regular exit is the `None` arm (discriminant 0) of the switch that follows the `next()` call at `next_block`."""
+    t = fn.blocks[next_block]["t"]
+    regular = set()
+    nb = t.get("t")
+    hops = 0
+    while nb is not None and hops < 3:
+        tb = fn.blocks[nb]["t"]
+        if tb["k"] == "switch":
+            for v, tg in tb["targets"]:
+                if v == 0:
+                    regular.add((nb, tg))
+            if not any(v == 0 for v, _ in tb["targets"]):
+                regular.add((nb, tb["otherwise"]))
+            break
+        nb = tb.get("t") if tb["k"] == "goto" else None
+        hops += 1
+    out = []
+    normal = fn.normal_blocks()
+    for b in sorted(body):
+        for s_ in fn.succ(b):
+            if s_ in normal and s_ not in body and (b, s_) not in regular:
+                if fn.blocks[s_]["t"]["k"] == "unreachable":
+                    continue
+                out.append((b, s_))
+    return out
+
+
+def _regular_exit_targets(fn, next_block):
+    t = fn.blocks[next_block]["t"]
+    nb, hops = t.get("t"), 0
+    while nb is not None and hops < 3:
+        tb = fn.blocks[nb]["t"]
+        if tb["k"] == "switch":
+            z = [tg for v, tg in tb["targets"] if v == 0]
+            return z or [tb["otherwise"]]
+        nb = tb.get("t") if tb["k"] == "goto" else None
+        hops += 1
+    return []
+
+
+def loop_breaks(fn):
+    """[(loop header loc, exit loc)] for every `for` loop (header = an Iterator::next call) that is left by a `break`:
+    an edge out of the loop, other than the exhaustion of the iterator, from which control goes on to code that also
+    follows the regular end of the loop and does something there (makes a call). A `return` inside the loop shares
+    only the epilogue (drops, the return itself) with the regular exit."""
+    loops = natural_loops(fn)
+    out = []
+    for b, t in fn.calls(r"Iterator>::next$|Iterator::next$"):
+        lp = loop_of_iteration(fn, loops, b)
+        if not (lp and lp[0] == b):
+            continue
+        after = set()
+        for tg in _regular_exit_targets(fn, b):
+            # (what follows the loop, not counting a later pass through the same loop when it is nested)
+            after |= set(fn.reachable_from(tg, avoid={b})) - lp[1]
+        for x, y in early_exits(fn, lp[1], b):
+            shared = (set(fn.reachable_from(y)) - lp[1]) & after
+            if any(fn.blocks[z]["t"]["k"] == "call" for z in shared):
+                out.append((fn.loc(b), fn.loc(x)))
+    return out
